@@ -22,7 +22,7 @@ MANIFEST = {
             "them), node-list formatting of Builder/Compiler (format_node), format_feature/type_id/data. AArch64 operand and named-label "
             "parse-back are monitored on every run, not proved for all inputs. The encoder's bytes are inputs here (C01/C02).",
 }
-MODS = ["AsmjitVerif.Props.C20", "AsmjitVerif.Props.C20Names", "AsmjitVerif.Props.C20Mem", "AsmjitVerif.Props.C20Read", "AsmjitVerif.Props.C20Line"]
+MODS = ["AsmjitVerif.Props.C20", "AsmjitVerif.Props.C20Names", "AsmjitVerif.Props.C20Mem", "AsmjitVerif.Props.C20Read", "AsmjitVerif.Props.C20Line", "AsmjitVerif.Props.C20A64Line", "AsmjitVerif.Props.C20Node"]
 
 M64 = (1 << 64) - 1
 FF = {"mc": 0x1, "alias": 0x8, "explain": 0x10, "heximm": 0x20, "hexoff": 0x40, "casts": 0x100, "pos": 0x200, "regtype": 0x400}
@@ -295,6 +295,9 @@ class Gen:
             # architectural syntax reads `[base], x` as one post-index operand: a plain memory operand is the last operand
             if a64 and any(o.startswith("am.") and o.split(".")[6] == "0" for o in ops[:-1]):
                 wf = False
+            # AArch64 has no register-list instructions: the line reader does not regroup `{w0-w3, w8}`
+            if a64 and any(o.startswith("rl.") for o in ops):
+                wf = False
             # {k}/{z} need a first operand; an extra register that is no mask and no rep prefix is simply not shown
             if not a64:
                 if nops == 0 and (extra.startswith("r.16") or opts & 0x8C0000):
@@ -525,6 +528,41 @@ class Gen:
                     self.add("emit %d 0 - - r.5.0 m.4.0.0.-.-.0.%d.0.0" % (hdr["mov"], v), True)
         self.targets.append((tag, len(self.ops)))
 
+    def node_block(self, names, n, bind_labels):
+        """Builder nodes formatted by Formatter::format_node: instruction nodes (with and without inline comment), label, align,
+        embedded data, comment nodes; finally the whole list through format_node_list"""
+        rng = self.rng
+        a64 = self.arch == "a64"
+        count = len(names)
+        if bind_labels:
+            for l in range(self.nlabels):
+                self.add("node label %d" % l, True)
+        for k in range(n):
+            r = rng.random()
+            if r < 0.6:
+                iid = rng.randrange(1, count)
+                if a64 and rng.random() < 0.3:
+                    iid |= rng.randrange(16) << 27
+                opts = 0 if a64 or rng.random() < 0.6 else rng.choice((0x2000, 0x10, 0x20, 0x800, 0x1000, 0x40000000, 0x12000))
+                nops = rng.choice((0, 1, 2, 2, 3, 3, 4))
+                ops, wf = [], True
+                for _ in range(nops):
+                    o, w = self.operand()
+                    ops.append(o); wf &= w
+                if "-" in ops:
+                    wf = False
+                if a64 and (any(o.startswith("am.") and o.split(".")[6] == "0" for o in ops[:-1]) or any(o.startswith("rl.") for o in ops)):
+                    wf = False
+                comment = "-" if rng.random() < 0.6 else ("c%d x" % rng.randrange(100)).encode().hex()
+                self.add("node inst %d %x - %s %s" % (iid, opts, comment, " ".join(ops)), wf)
+            elif r < 0.72:
+                self.add("node align %d %d" % (rng.choice((0, 1, 2)), rng.choice((1, 2, 4, 8, 16, 32, 64, 4096))), True)
+            elif r < 0.86:
+                self.add("node embed %d %d %d" % (rng.choice((1, 2, 4, 8)), rng.randrange(0, 40), rng.randrange(1, 9)), True)
+            else:
+                self.add("node comment %s" % rng.choice(("hello world", "x", "a; b", "pad  ded")).encode().hex(), True)
+        self.add("nodelist")
+
     def misc_block(self, n):
         rng = self.rng
         for _ in range(n):
@@ -598,6 +636,23 @@ def gen_ops(rng, tier):
                         g.add("bind %d" % l)
                     g.emit_block(names, ids, 300 if quick else 2000)
                 first = False
+    # Builder sessions: node formatting
+    for arch in ("x64", "a64"):
+        names, ids = hdr[arch]
+        g.arch, g.comp = arch, False
+        g.nlabels, g.vregs = 0, []
+        g.add("init %s bld" % arch)
+        for l in ("lab a", "lab a", "lab n 2 main -", "lab n 1 loop 2", "lab n 1 inner 0", "lab n 0 tmp -", "lab n 3 ext_fn -",
+                  "lab n 2 Data_1 -", "lab n 1 loop 7", "lab a"):
+            g.add(l)
+        g.nlabels = 10
+        first = True
+        for f in (0x0, 0x60, 0x8, 0x68):
+            g.set_flags(f)
+            if f == 0x60:
+                g.add("logopts 0 30 0")
+            g.node_block(names, 150 if quick else 3000, first)
+            first = False
     return g
 
 
@@ -669,6 +724,8 @@ def monitor_line(op, ans):
         return "mon_op %s %s" % (w[1], ans)
     if w[0] == "inst" and ans.startswith("="):
         return "mon_inst %s %s" % (" ".join(w[1:]), ans)
+    if w[0] == "node" and ans.startswith("="):
+        return "mon_node %s %s" % (" ".join(w[1:]), ans)
     if w[0] == "emit" and ans.startswith("T "):
         text, hexb = split_emit_answer(ans)
         return "mon_emit %s %s %s %s %s %s =%s" % (w[1], w[2], w[3], w[4], hexb or "-", " ".join(w[5:]), text)
@@ -683,6 +740,59 @@ def op_class(op, archs, i):
     return "%s:%s" % (archs[i], kind)
 
 
+def op_in_theorem(arch, tok, nlabels=10):
+    """is this operand inside the `OpOK`/`OpOKA` kinds of x86_line_parse_back / a64_line_parse_back? (mirrors the theorems' WF predicates)"""
+    p = tok.split(".")
+    a64 = arch.startswith("a64")
+    if p[0] == "r":
+        t = int(p[1])
+        virt = p[2].startswith("v")
+        if len(p) == 3:
+            return virt or valid_reg("a64" if a64 else "x64", t, int(p[2]))
+        et, ei = int(p[3]), p[4]
+        if et == 0:
+            return False
+        return a64 and not virt and int(p[2]) < 32 and ((t == 10 and 1 <= et <= 4) or (t == 11 and 1 <= et <= 6))
+    if p[0] == "i":
+        return len(p) == 2 or (a64 and int(p[2]) < 14) or (not a64 and int(p[2]) == 0)
+    if p[0] == "l":
+        return int(p[1]) < nlabels
+    def regok(s_):
+        if s_ == "-":
+            return True
+        if s_[0] == "L":
+            return int(s_[1:]) < nlabels
+        t, i = s_.split("/")
+        return i.startswith("v") or valid_reg("a64" if a64 else "x64", int(t), int(i))
+    if p[0] == "m" and not a64:
+        size, seg, at, base, index, shift, off, bc, home = p[1:]
+        return int(size) in (0, 1, 2, 4, 6, 8, 10, 16, 32, 64) and int(seg) < 7 and int(at) < 3 and int(bc) < 7 and regok(base) and regok(index)
+    if p[0] == "am" and a64:
+        base, index, sop, shift, off, mode, home = p[1:]
+        if base == "-" or not regok(base) or not regok(index):
+            return False
+        sop, shift, mode, off = int(sop), int(shift), int(mode), int(off)
+        if index == "-":
+            return shift == 0 and sop == 0 and mode <= 2
+        return off == 0 and ((mode == 0 and sop < 14) or (mode == 2 and sop == 0 and shift == 0))
+    return False
+
+
+def line_in_theorem(arch, flags, ops_tokens, impl_text):
+    a64 = arch.startswith("a64")
+    if flags & 0x10 and ANNOT.search(impl_text or ""):
+        return False            # kExplainImms annotation: not part of the modelled text
+    if not all(op_in_theorem(arch, t) for t in ops_tokens):
+        return False
+    if a64:
+        for t in ops_tokens[:-1]:
+            if t.startswith("am."):
+                q = t.split(".")
+                if q[2] == "-" and int(q[5]) == 0 and int(q[6]) == 0:
+                    return False        # a plain `[b]` that is not the last operand
+    return True
+
+
 def generate():
     return gen_formattabs.generate()
 
@@ -695,7 +805,8 @@ def run(res):
         "the syntax can express, label and virtual-register names that are identifiers and do not collide with register names); "
         "ill-formed inputs are compared model vs implementation only",
         "the bytes appended by the encoder and the size/position of the unresolved displacement are inputs of the log-line model (C01/C02/C03 own them)",
-        "Builder/Compiler node-list formatting (Formatter::format_node) is not covered",
+        "Builder nodes: inst/label/align/embed-data/comment/section through Formatter::format_node and format_node_list are modelled and tied; "
+        "Compiler-only nodes (func/ret/invoke/sentinel/const-pool/embed-label) and the kPositions prefix are not",
     ]
     broken = []
 
@@ -745,7 +856,7 @@ def run(res):
     archs, a = [], "?"
     for o in ops:
         if o.startswith("init "):
-            a = o.split()[1] + ("c" if o.split()[2] == "comp" else "")
+            a = o.split()[1] + {"comp": "c", "bld": "b"}.get(o.split()[2], "")
         archs.append(a)
     # model side: emit lines become logline lines carrying the implementation's bytes
     a64names = header_ids("a64")[0]
@@ -828,6 +939,20 @@ def run(res):
             if "L0.inner" in r or "L7.loop" in r or "Data_1.loop" in r:
                 tgt["local_label_under_unnamed_parent_texts"] += "L0.inner" in r
     res.coverage["targeted_cases"] = tgt
+    # fraction of the lines the real Assembler emitted (the sweep) that lie inside the WF predicate of the line theorems
+    frac = {}
+    for i, (o, r) in enumerate(zip(ops, impl)):
+        if o.startswith("emit ") and r.startswith("T "):
+            fam = "a64" if archs[i].startswith("a64") else "x86"
+            w = o.split()
+            inside = line_in_theorem(archs[i], fl[i], w[5:], r)
+            a_, b_ = frac.get(fam, (0, 0))
+            frac[fam] = (a_ + (1 if inside else 0), b_ + 1)
+    res.coverage["line_theorem_wf_fraction_of_emitted_lines"] = {
+        k: {"inside": a_, "emitted": b_, "fraction": round(a_ / b_, 4) if b_ else None} for k, (a_, b_) in frac.items()}
+    res.coverage["line_theorem_wf_note"] = ("x86_line_parse_back / a64_line_parse_back quantify over all lines satisfying WFLine / "
+        "(OpOKA, A64OpsOK); a line is outside only if it carries a kExplainImms annotation (text not modelled) or an operand "
+        "outside the proved kinds; the classifier op_in_theorem mirrors the WF predicates")
     if not all(tgt.values()):
         broken.append("generator no longer reaches a targeted class: %s" % tgt)
     res.coverage["machine_code_column_on_real_byte_stream"] = (
